@@ -983,8 +983,9 @@ fn parse_pep508_requirement<T: Pep508Url>(
     cursor.eat_whitespace();
     if let Some((pos, char)) = cursor.next() {
         if marker.is_none() {
-            if let Some(VersionOrUrl::Url(url)) = requirement_kind {
-                let url = url.to_string();
+            if let Some(VersionOrUrl::Url(_)) = requirement_kind {
+                // Look at the text the URL was read from: the parsed URL may render differently.
+                let url = cursor.slice(0, requirement_end);
                 for c in [';', '#'] {
                     if url.ends_with(c) {
                         return Err(Pep508Error {
